@@ -153,8 +153,43 @@ def check_write(ctx: Ctx) -> None:
     ctx.require("R-WRITE", "call to reformat_text in reformat_file", len(rt_nodes), 1)
     read_nodes = {n for n, c in flow.all_calls() if isinstance(c.func, ast.Attribute) and c.func.attr in ("read", "read_text", "read_bytes")}
     ctx.require("R-WRITE", "read sites in reformat_file", len(read_nodes), 1)
+    def never_none(e: ast.AST, at: Node, depth: int = 0) -> bool:
+        """the value is a string constant on every path (so an `is None` arm it guards cannot run)"""
+        if isinstance(e, ast.Constant):
+            return e.value is not None
+        if isinstance(e, ast.IfExp):
+            return never_none(e.body, at, depth + 1) and never_none(e.orelse, at, depth + 1)
+        if isinstance(e, ast.Name) and depth < 4:
+            ds = flow.reaching(at, e.id)
+            return bool(ds) and all(d.kind == "assign" and d.value is not None and never_none(d.value, d.node, depth + 1) for d in ds)
+        return False
+
+    def always_none(e: ast.AST, at: Node, depth: int = 0) -> bool:
+        if isinstance(e, ast.Constant):
+            return e.value is None
+        if isinstance(e, ast.Name) and depth < 4:
+            ds = flow.reaching(at, e.id)
+            return bool(ds) and all(d.kind == "assign" and d.value is not None and always_none(d.value, d.node, depth + 1) for d in ds)
+        return False
+
+    def dead_site(n: Node) -> bool:
+        """the site sits on an arm of an `x is None` / `x is not None` test that the values x can hold rule out (a spliced
+        helper called with a constant for that parameter)"""
+        for b, lab in all_guards(prog, rf, n):
+            t_ = b.ast if b.kind == "test" else None
+            if isinstance(t_, ast.Compare) and len(t_.ops) == 1 and isinstance(t_.comparators[0], ast.Constant) and t_.comparators[0].value is None \
+                    and isinstance(t_.ops[0], (ast.Is, ast.IsNot)):
+                want_none = (lab == "T") == isinstance(t_.ops[0], ast.Is)
+                if want_none and never_none(t_.left, b):
+                    return True
+                if not want_none and always_none(t_.left, b):
+                    return True
+        return False
+
     for fi, n, c in atomic_sites:
         if fi.qual != rf.qual:
+            continue
+        if dead_site(n):
             continue
         dest = c.args[0] if c.args else next((k.value for k in c.keywords if k.arg == "dest_path"), None)
         dorg = origins(prog, rf, dest, n) if dest is not None else frozenset()
